@@ -11,7 +11,8 @@ Constructs == {"assign", "chain", "augassign", "annassign", "annonly", "for", "a
                "importas", "dotted", "from", "fromas", "fromstar", "relfrom", "except", "exceptbare", "param", "paramdefault",
                "paramannot", "paramstar", "paramkw", "paramposonly", "paramkwonly", "lambda", "lambdadefault", "global",
                "nonlocal", "classdef", "funcdef", "decorated", "forelse", "withmulti", "trystar", "importmulti",
-               "importmulti2", "importmulti3", "frommulti"}
+               "importmulti2", "importmulti3", "frommulti", "generic", "genericret", "genericasync", "genericbound",
+               "genericclass", "typealias", "retannot", "asyncret"}
 Shapes == {"name", "attr", "subscript", "starred", "tuple", "list", "paren", "nested", "attrchain", "slice"}
 Contexts == {"module", "def", "class", "asyncdef", "nesteddef", "method"}
 VARIABLES c, s, x
